@@ -733,13 +733,17 @@ func (s *verifC22Suite) genOp(rnd *rand.Rand) (v22Op, bool) {
 		}
 	}
 	active := v22IDs(repo.Interfaces().Connections)
-	var inactive []string
+	var inactive, reconnectable []string
 	for id, e := range connsMap {
 		if v22Flag(e, "undesired") || v22Flag(e, "hotplug-gone") {
 			inactive = append(inactive, id)
 		}
+		if ref, err := interfaces.ParseConnRef(id); err == nil && v22Flag(e, "undesired") && inst[ref.PlugRef.Snap] && inst[ref.SlotRef.Snap] {
+			reconnectable = append(reconnectable, id)
+		}
 	}
 	sort.Strings(inactive)
+	sort.Strings(reconnectable)
 	isActive := map[string]bool{}
 	for _, id := range active {
 		isActive[id] = true
@@ -751,6 +755,10 @@ func (s *verifC22Suite) genOp(rnd *rand.Rand) (v22Op, bool) {
 	for tries := 0; tries < 60; tries++ {
 		switch k := rnd.Intn(100); {
 		case k < 34:
+			if len(reconnectable) > 0 && rnd.Intn(3) == 0 {
+				// connect again what was manually disconnected
+				return refOp("connect", reconnectable[rnd.Intn(len(reconnectable))]), true
+			}
 			if len(plugs) == 0 || len(slots) == 0 {
 				continue
 			}
